@@ -6,18 +6,31 @@ import PsyVerif.Lemmas.LoopTransHoist
 import PsyVerif.Lemmas.LoopTransHoistBound
 import PsyVerif.Lemmas.LoopTransSwap
 import PsyVerif.Lemmas.LoopTransReplaceIV
+import PsyVerif.Lemmas.LoopTransAccess
+import PsyVerif.Lemmas.LoopTransFuseElem
+import PsyVerif.Lemmas.LoopTransFold
 /-! # C05 — Accepted loop transformations preserve serial semantics
 
-Models: `PsyVerif/Model/LoopTrans.lean` (`chunkValidate/chunkApply`, `fuseValidate/fuseApply`,
-`swapValidate/swapApply`, `hoistValidate/hoistApply` mirror the `validate`/`apply` methods of
-`ChunkLoopTrans`, `LoopFuseTrans`, `LoopSwapTrans`, `HoistTrans`) over the MiniF semantics
-(`Model/MiniF.lean`).  Quantification: all stores, all bounds and trip counts (zero-trip and
-single-trip loops included), all loop bodies.
+Models (`PsyVerif/Model/LoopTrans.lean`, over the MiniF semantics of `Model/MiniF.lean`) mirror the
+`validate`/`apply` methods of all eight anchored transformations:
 
-The pinned code does NOT have the property; for every transformation the full statement is
-kept as a `def … : Prop`, refuted on a concrete accepted target (`…_counterexample`, kernel
-evaluation by `decide`) and a `…_partial` theorem is proved under an explicit decidable side
-condition that excludes the defect classes. -/
+| transformation | model | positive theorem | refutations (kernel `decide`) |
+|---|---|---|---|
+| ChunkLoopTrans | `chunkValidate/chunkApply` | `C05_chunk_sound_partial` (step > 0 dividing the chunk size) | step ∤ chunk, negative literal step, zero-trip loop variable, stop expression mentions the loop variable |
+| LoopFuseTrans | `fuseValidate/fuseApply` | `C05_fuse_sound_elem_partial` (element level, distance 0), `C05_fuse_sound_partial` (independent bodies), `C05_fuse_discipline_passes_arrayCheck` | `a(i)`/`a(i+1)`, reversed arguments |
+| LoopSwapTrans | `swapValidate/swapApply` | `C05_swap_sound_partial` (`NoCarriedDep`) | carried dependence |
+| HoistTrans | `hoistValidate/hoistApply` | `C05_hoist_sound_partial` (only extra hypothesis: trip count > 0; `hoistValidate_safe`) | zero-trip loop |
+| HoistLoopBoundExprTrans | `hoistBoundApply` | `C05_hoistBound_sound` (unconditional up to freshness) | — |
+| ReplaceInductionVariablesTrans | `isIV/rivGo/replaceIVApply` | `C05_replaceIV_sound_partial` (on `isIV` + `ReplaceIVExtra`, trip count > 0; `isIV_safe`) | zero-trip loop, variable in the loop header |
+| LoopTiling2DTrans | `tileValidate/tileApply` (= chunk ∘ chunk ∘ swap) | — (composition theorem not proved) | inherited dependence |
+| FoldConditionalReturnExpressionsTrans | `foldApply` over `RStmt` (MiniF + RETURN) | `C05_foldReturn_sound` (unconditional) | — |
+
+Quantification: all stores, all bound/step expressions and trip counts (zero-trip and single-trip
+loops included), all loop bodies.  The pinned code does NOT have the property for six of the
+eight transformations; for each the full statement is kept as a `def … : Prop`, refuted on a
+concrete accepted target, and a `…_partial` theorem is proved under an explicit decidable (for
+interchange: semantic) side condition that excludes exactly the defect classes listed in
+`known_findings.d/C05.json`.  Every partial theorem has a non-vacuity `example`. -/
 namespace C05
 open MiniF
 
@@ -397,6 +410,72 @@ example : fuseValidate ⟨⟨0, .lit 1, .lit 3, .lit 1, .assign 2 (.var 0)⟩,
 example : fuseValidate ⟨⟨0, .lit 1, .lit 3, .lit 1, .skip⟩, ⟨0, .lit 1, .lit 4, .lit 1, .skip⟩, true, false⟩
     = .error .boundsDiffer := by decide
 
+/-- side condition of the element-level fusion theorem, for a table `A` of arrays with their
+constant subscript offset: arguments in program order, same loop variable (not in the table,
+not assigned in the bodies), both bodies access every array of the table only as
+`a(v + offset)` with the SAME offset (dependence distance 0 — `DiscS`), every other variable
+written by one body is not touched by the other, and the header does not depend on the loop
+variable or on what the first body writes -/
+def FuseElemSafe (t : FuseTarget) (A : OffTab) : Prop :=
+  t.reversed = false ∧ t.l1.v = t.l2.v ∧ A.lookup t.l1.v = none ∧
+  DiscS A t.l1.v t.l1.body = true ∧ DiscS A t.l1.v t.l2.body = true ∧
+  t.l1.v ∉ wVars t.l1.body ∧ t.l1.v ∉ wVars t.l2.body ∧
+  (∀ y ∈ wVars t.l1.body, A.lookup y = none → y ∉ rVars t.l2.body ∧ y ∉ wVars t.l2.body) ∧
+  (∀ y ∈ wVars t.l2.body, A.lookup y = none → y ∉ rVars t.l1.body ∧ y ∉ wVars t.l1.body) ∧
+  (∀ x ∈ eVars t.l1.lo ++ eVars t.l1.hi ++ eVars t.l1.st, x ≠ t.l1.v ∧ x ∉ wVars t.l1.body)
+
+instance (t : FuseTarget) (A : OffTab) : Decidable (FuseElemSafe t A) := by
+  unfold FuseElemSafe; exact inferInstance
+
+/-- **Element-level fusion is sound** (the positive counterpart of the `a(i)`/`a(i+1)` finding):
+two accepted loops with the same header whose bodies access every shared written array only at
+`loop variable + the same constant` — dependence distance 0, what `_validate_written_array` is
+meant to guarantee — fuse to a loop that computes exactly the same store, for all bounds,
+steps, trip counts and stores.  Iteration `k` of the second loop commutes with every later
+iteration of the first (`inst_commute`, `interleave`).  Missing parts: scalars written in both
+loops (the code's write-first rule is textual and not sound for conditional writes), rank-2
+shared arrays, subscripts other than `v`, `v + c`, `v - c`. -/
+theorem C05_fuse_sound_elem_partial (t : FuseTarget) (hacc : fuseValidate t = .ok ()) (A : OffTab)
+    (hs : FuseElemSafe t A) (σ : Store) : exec (fuseApply t) σ = exec t.original σ := by
+  obtain ⟨hlo, hhi, hst⟩ := fuseValidate_bounds hacc
+  obtain ⟨hrev, hv, hAv, hd1, hd2, hv1, hv2, h12, h21, hb⟩ := hs
+  obtain ⟨⟨v1, lo1, hi1, st1, b1⟩, ⟨v2, lo2, hi2, st2, b2⟩, adj, rev⟩ := t
+  simp only at hlo hhi hst hrev hv hAv hd1 hd2 hv1 hv2 h12 h21 hb
+  subst hlo hhi hst hrev hv
+  simp only [fuseApply, FuseTarget.original, LoopN.stmt, if_true]
+  simp only [List.mem_append, eVars_eq, rVars_eq, wVars_eq] at hv1 hv2 h12 h21 hb
+  exact fuse_elem_sound A v1 lo1 hi1 st1 b1 b2 hAv hd1 hd2 hv1 hv2 h12 h21
+    (fun x hx => hb x (by rcases hx with h | h | h <;> simp [h])) σ
+
+/-- under the discipline the model of `_validate_written_array` accepts every table array: the
+side condition strengthens the code's test (position of the loop variable) by the distance -/
+theorem C05_fuse_discipline_passes_arrayCheck (t : FuseTarget) (A : OffTab) (hs : FuseElemSafe t A)
+    (a : Nat) (off : Int) (ha : A.lookup a = some off) :
+    fuseArrayCheck t.l1.v (accOf a (sAcc t.l1.body) ++ accOf a (sAcc t.l2.body)) = .ok () := by
+  obtain ⟨_, _, _, hd1, hd2, _⟩ := hs
+  apply fuseArrayCheck_of_offsets
+  intro acc hacc
+  simp only [List.mem_append, accOf, List.mem_filter, beq_iff_eq] at hacc
+  rcases hacc with ⟨h1, h2⟩ | ⟨h1, h2⟩
+  · obtain ⟨i, hi, ho⟩ := sAcc_disc hd1 acc h1 off (by rw [h2]; exact ha)
+    exact ⟨i, off, hi, ho⟩
+  · obtain ⟨i, hi, ho⟩ := sAcc_disc hd2 acc h1 off (by rw [h2]; exact ha)
+    exact ⟨i, off, hi, ho⟩
+
+/-- non-vacuity: `do i: a(i) = b(i) + 1 ; c(i+1) = a(i)` fused with `do i: d(i) = a(i) * c(i+1)`
+(a producer/consumer pair at distance 0; ids i=0, a=1, b=2, c=3, d=6) is accepted and safe -/
+example :
+    let t : FuseTarget :=
+      ⟨⟨0, .var 4, .var 5, .lit 1, .seq (.store1 1 (.var 0) (.bin .add (.idx1 2 (.var 0)) (.lit 1)))
+          (.store1 3 (.bin .add (.var 0) (.lit 1)) (.idx1 1 (.var 0)))⟩,
+       ⟨0, .var 4, .var 5, .lit 1, .store1 6 (.var 0)
+          (.bin .mul (.idx1 1 (.var 0)) (.idx1 3 (.bin .add (.var 0) (.lit 1))))⟩, true, false⟩
+    fuseValidate t = .ok () ∧ FuseElemSafe t [(1, 0), (3, 1), (6, 0)] := by decide
+
+/-- the distance-1 pair of the finding violates the discipline for every offset of `a` -/
+example : ¬ FuseElemSafe fuseDistanceWitness [(1, 0), (3, 0)] ∧ ¬ FuseElemSafe fuseDistanceWitness [(1, 1), (3, 0)] := by
+  decide
+
 /-! ### LoopSwapTrans -/
 
 /-- full statement for interchange -/
@@ -482,16 +561,68 @@ theorem C05_hoist_zero_trip_counterexample :
 theorem C05_hoist_statement_false : ¬ C05_hoist_statement := fun h =>
   C05_hoist_zero_trip_counterexample.2 (h hoistZeroWitness C05_hoist_zero_trip_counterexample.1)
 
-/-- **Hoisting is sound when the loop runs at least once**: exact store equality for every loop
-header, every surrounding statements and every store with a positive trip count.  Missing
-parts: zero-trip loops (refuted by `C05_hoist_zero_trip_counterexample`; `HoistTrans` has no
-trip-count test); `HoistSafe` is stated directly and is not derived from `hoistValidate` inside
-Lean (the generated-case correspondence plus execution oracle cover that link). -/
-theorem C05_hoist_sound_partial (t : HoistTarget) (_hacc : hoistValidate t = .ok ()) (x : Nat)
-    (hs : HoistSafe t x) (σ : Store)
+theorem assignedVar_wVars {s : Stmt} {x : Nat} (h : assignedVar s = some x) : wVars s = [x] := by
+  cases s <;> simp_all [assignedVar, wVars]
+
+/-- **what `HoistTrans.validate` guarantees**: an accepted target satisfies `HoistSafe` — derived
+from the model of `_validate_dependencies` (access lists, `is_accessed_before`, the count of
+WRITE accesses, `is_written` of the read signatures) -/
+theorem hoistValidate_safe {t : HoistTarget} (h : hoistValidate t = .ok ()) : ∃ x, HoistSafe t x := by
+  unfold hoistValidate at h
+  split at h
+  · cases h
+  · rename_i x hx
+    simp only at h
+    split at h
+    · cases h
+    · rename_i h1
+      split at h
+      · cases h
+      · rename_i h2
+        split at h
+        · cases h
+        · rename_i h3
+          split at h
+          · cases h
+          · rename_i h4
+            simp only [Bool.or_eq_true, decide_eq_true_eq, not_or, gt_iff_lt, Nat.not_lt,
+              Nat.le_zero_eq] at h2
+            have hw : wVars t.s = [x] := assignedVar_wVars hx
+            have hpre := not_mem_of_accOf_nil h2.2
+            -- the statement itself contributes one WRITE of x to the loop's access list
+            have hcount : countWrites x (sAcc t.original)
+                = countWrites x (sAcc (seqs t.pre)) + countWrites x (sAcc t.s) + countWrites x (sAcc (seqs t.post))
+                  + (if t.v = x then 1 else 0) := by
+              simp only [HoistTarget.original, sAcc, countWrites_append, countWrites_eAcc, sAcc_seqs,
+                List.flatMap_append, List.flatMap_cons]
+              simp only [countWrites, List.filter_cons, List.filter_nil]
+              by_cases hv : t.v = x <;> simp [hv] <;> omega
+            have hs1 : 0 < countWrites x (sAcc t.s) := countWrites_pos_of_wVars (by rw [hw]; simp)
+            refine ⟨x, hx, by simpa using h1, h2.1.1, h2.1.2, ?_, ?_, ?_⟩
+            · simp only [List.mem_append, not_or]; exact hpre
+            · intro hp
+              have := countWrites_pos_of_wVars hp
+              omega
+            · intro r hr
+              have hnw : r ∉ wVars t.original := by
+                intro hm
+                apply h4
+                rw [List.any_eq_true]
+                exact ⟨r, hr, by simpa using hm⟩
+              simp only [HoistTarget.original, wVars, List.mem_cons, not_or] at hnw
+              have h5 := hnw.2
+              rw [mem_wVars_seqs_append, mem_wVars_seqs_cons] at h5
+              exact ⟨hnw.1, fun hh => h5 (Or.inl hh), fun hh => h5 (Or.inr (Or.inr hh))⟩
+
+/-- **Hoisting is sound when the loop runs at least once**: for every accepted target (the
+only hypothesis besides acceptance is a positive trip count) the hoisted program computes
+exactly the same store, for every loop header, surrounding statements and store.  Missing
+part: zero-trip loops (refuted by `C05_hoist_zero_trip_counterexample`; `HoistTrans` has no
+trip-count test). -/
+theorem C05_hoist_sound_partial (t : HoistTarget) (hacc : hoistValidate t = .ok ()) (σ : Store)
     (hn : 0 < trip (eval t.lo σ) (eval t.hi σ) (eval t.st σ)) :
     exec (hoistApply t) σ = exec t.original σ := by
-  obtain ⟨hx, hxr, hxv, hxb, hxp, hxq, hR⟩ := hs
+  obtain ⟨x, hx, hxr, hxv, hxb, hxp, hxq, hR⟩ := hoistValidate_safe hacc
   simp only [List.mem_append, not_or, eVars_eq, rVars_eq, wVars_eq] at hxr hxb hxp hxq hR
   have h1 : exec t.original σ = exec (.loop t.v t.lo t.hi t.st (.seq (seqs t.pre) (.seq t.s (seqs t.post)))) σ := by
     apply loop_body_congr
@@ -594,22 +725,66 @@ theorem C05_replaceIV_header_counterexample :
 theorem C05_replaceIV_statement_false : ¬ C05_replaceIV_statement := fun h =>
   C05_replaceIV_zero_trip_counterexample.2 (h replaceIVZeroWitness rfl)
 
-/-- **One induction-variable replacement is sound when the loop runs at least once**: the loop
-with `x = e` removed and `x` replaced by `e` in the rest of the body, followed by
-`x = e[v := v - step]`, leaves every scalar and array element as the original loop does, for
-all headers, bodies, stores with a positive trip count.  (`apply` iterates this step; when
+/-- what `_is_induction_variable` does NOT test (each omission is a finding class or an
+untested corner): the replaced variable is not the loop variable and does not occur in the loop
+header, it is not used as an array name, the loop variable is not assigned in the body, and the
+step expression is not modified by the body -/
+def ReplaceIVExtra (v : Nat) (lo hi st : Expr) (pre post : List Stmt) (x : Nat) (e : Expr) : Prop :=
+  x ≠ v ∧ x ∉ eVars lo ++ eVars hi ++ eVars st ∧ x ∉ arrsS (seqs post) ∧ v ∉ arrsE e ∧
+  (v ∉ wVars (seqs pre) ∧ v ∉ wVars (seqs post)) ∧
+  (∀ r ∈ eVars st, r ≠ v ∧ r ∉ wVars (seqs pre) ∧ r ∉ wVars (seqs post))
+
+instance (v : Nat) (lo hi st : Expr) (pre post : List Stmt) (x : Nat) (e : Expr) :
+    Decidable (ReplaceIVExtra v lo hi st pre post x e) := by unfold ReplaceIVExtra; exact inferInstance
+
+/-- **what `_is_induction_variable` guarantees**: together with the untested conditions it yields
+`ReplaceIVSafe` -/
+theorem isIV_safe {v : Nat} {lo hi st : Expr} {pre post : List Stmt} {x : Nat} {e : Expr}
+    (h : isIV (pre ++ .assign x e :: post) pre.length x e = true)
+    (hx : ReplaceIVExtra v lo hi st pre post x e) : ReplaceIVSafe v lo hi st pre post x e := by
+  unfold isIV at h
+  simp only [Bool.and_eq_true, List.all_eq_true, Bool.not_eq_true', decide_eq_false_iff_not,
+    List.isEmpty_iff] at h
+  obtain ⟨⟨h1, h2⟩, h3⟩ := h
+  rw [List.take_left'  rfl] at h2
+  have hdrop : List.drop (pre.length + 1) (pre ++ Stmt.assign x e :: post) = post := by
+    simp
+  rw [hdrop] at h3
+  have hpre := not_mem_of_accOf_nil (y := x) (s := seqs pre) (by rw [h2]; rfl)
+  have hbody : ∀ y, y ∈ wVars (seqs (pre ++ Stmt.assign x e :: post)) ↔
+      y ∈ wVars (seqs pre) ∨ y = x ∨ y ∈ wVars (seqs post) := by
+    intro y
+    rw [mem_wVars_seqs_append, mem_wVars_seqs_cons]
+    simp [wVars]
+  obtain ⟨e1, e2, e3, e4, e5, e6⟩ := hx
+  refine ⟨?_, e1, e2, ?_, h3, e3, e4, ?_, e5, e6⟩
+  · intro hxe
+    exact h1 x hxe ((hbody x).2 (Or.inr (Or.inl rfl)))
+  · simp only [List.mem_append, not_or]; exact hpre
+  · intro r hr
+    have := h1 r hr
+    rw [hbody] at this
+    exact ⟨fun hh => this (Or.inl hh), fun hh => this (Or.inr (Or.inr hh))⟩
+
+/-- **One induction-variable replacement is sound when the loop runs at least once**: whenever
+`_is_induction_variable` accepts the assignment `x = e` at its position in the loop body, the
+loop with the assignment removed and `x` replaced by `e` in the rest of the body, followed by
+`x = e[v := v - step]`, leaves every scalar and array element as the original loop does — for
+all headers, bodies and stores with a positive trip count, under the explicitly named extra
+conditions `ReplaceIVExtra` that the code does not test.  (`apply` iterates this step; since
 `x` is not read before its assignment the model's substitution of the whole body equals the
 one used here — `map_substS_id`.)  Missing parts: zero-trip loops and a replaced variable in
 the loop header (both refuted above), a body that modifies the step expression or the loop
 variable, and the locations `(x, i, j) ≠ (x, 0, 0)` that a scalar never uses. -/
 theorem C05_replaceIV_sound_partial (v : Nat) (lo hi st : Expr) (pre post : List Stmt) (x : Nat) (e : Expr)
-    (hs : ReplaceIVSafe v lo hi st pre post x e) (σ : Store)
+    (hiv : isIV (pre ++ .assign x e :: post) pre.length x e = true)
+    (hextra : ReplaceIVExtra v lo hi st pre post x e) (σ : Store)
     (hn : 0 < trip (eval lo σ) (eval hi σ) (eval st σ)) :
     ∀ l : Loc, (l.1 = x → l = (x, 0, 0)) →
       (exec (.seq (.loop v lo hi st (seqs ((pre ++ post).map (substS x e))))
                   (.assign x (substE v (.bin .sub (.var v) st) e))) σ) l
         = (exec (.loop v lo hi st (seqs (pre ++ .assign x e :: post))) σ) l := by
-  obtain ⟨hxe, hxv, hxh, hxp, hxq, harr, hve, hep, hvw, hst⟩ := hs
+  obtain ⟨hxe, hxv, hxh, hxp, hxq, harr, hve, hep, hvw, hst⟩ := isIV_safe hiv hextra
   simp only [List.mem_append, not_or, eVars_eq, rVars_eq, wVars_eq] at hxe hxh hxp hxq hep hvw hst
   have hO : exec (.loop v lo hi st (seqs (pre ++ .assign x e :: post))) σ
       = exec (.loop v lo hi st (.seq (seqs pre) (.seq (.assign x e) (seqs post)))) σ := by
@@ -631,9 +806,19 @@ theorem C05_replaceIV_sound_partial (v : Nat) (lo hi st : Expr) (pre post : List
   exact replaceIV_step_sound v x lo hi st e (seqs pre) (seqs post) hxe hxv ⟨hxh.1.1, hxh.1.2, hxh.2⟩ hxp hxq
     harr hve hep hvw hst σ hn l hl
 
+/-- the model's `apply` performs exactly this step on an accepted candidate -/
+example : replaceIVApply ⟨0, .var 4, .var 5, .lit 2, [.store1 3 (.var 0) (.lit 1),
+      .assign 2 (.bin .add (.var 0) (.var 7)), .store1 1 (.var 0) (.var 2)]⟩
+    = .seq (.loop 0 (.var 4) (.var 5) (.lit 2)
+        (seqs ([Stmt.store1 3 (.var 0) (.lit 1), .store1 1 (.var 0) (.var 2)].map (substS 2 (.bin .add (.var 0) (.var 7))))))
+      (.assign 2 (substE 0 (.bin .sub (.var 0) (.lit 2)) (.bin .add (.var 0) (.var 7)))) := by decide
+
 /-- non-vacuity: `do i = n, m, 2 ; b(i) = 1 ; t = i + s ; a(i) = t ; c(t) = i` -/
-example : ReplaceIVSafe 0 (.var 4) (.var 5) (.lit 2) [.store1 3 (.var 0) (.lit 1)]
-    [.store1 1 (.var 0) (.var 2), .store1 6 (.var 2) (.var 0)] 2 (.bin .add (.var 0) (.var 7)) := by decide
+example :
+    isIV ([Stmt.store1 3 (.var 0) (.lit 1)] ++ .assign 2 (.bin .add (.var 0) (.var 7)) ::
+      [.store1 1 (.var 0) (.var 2), .store1 6 (.var 2) (.var 0)]) 1 2 (.bin .add (.var 0) (.var 7)) = true ∧
+    ReplaceIVExtra 0 (.var 4) (.var 5) (.lit 2) [.store1 3 (.var 0) (.lit 1)]
+      [.store1 1 (.var 0) (.var 2), .store1 6 (.var 2) (.var 0)] 2 (.bin .add (.var 0) (.var 7)) := by decide
 
 /-! ### LoopTiling2DTrans -/
 
@@ -666,5 +851,28 @@ theorem C05_tile_statement_false : ¬ C05_tile_statement := fun h =>
 
 example : tileValidate { tileWitness with tile := 0 } = .error .badOption := by decide
 example : tileValidate { tileWitness with st := .lit 3 } = .error .stepTooLarge := by decide
+
+/-! ### FoldConditionalReturnExpressionsTrans -/
+
+/-- **Folding conditional returns is sound, unconditionally**: for every routine body (any
+nesting of IfBlocks with RETURNs outside loops, dead code after a RETURN, else branches, several
+conditional returns in a row) and every store, the folded routine ends with exactly the same
+store as the original. -/
+theorem C05_foldReturn_sound (body : List RStmt) (_hacc : foldValidate body = .ok ()) (σ : Store) :
+    (execR (seqsR (foldApply body)) σ).1 = (execR (seqsR body) σ).1 :=
+  fold_sound body σ
+
+/-- the docstring example: two conditional returns followed by code -/
+example : foldApply [.ite (.bin .lt (.var 0) (.lit 5)) .ret .skip false,
+      .ite (.bin .gt (.var 0) (.lit 10)) .ret .skip false, .base (.assign 1 (.lit 7))]
+    = [.ite (.un .not (.bin .lt (.var 0) (.lit 5)))
+        (.ite (.un .not (.bin .gt (.var 0) (.lit 10))) (.base (.assign 1 (.lit 7))) .skip false) .skip false] := by
+  decide
+
+/-- an IfBlock with an else branch, or whose first statement is not the RETURN, is left alone -/
+example : foldApply [.ite (.var 0) .ret (.base (.assign 1 (.lit 1))) true, .base (.assign 1 (.lit 7))]
+    = [.ite (.var 0) .ret (.base (.assign 1 (.lit 1))) true, .base (.assign 1 (.lit 7))] := by decide
+example : foldApply [.ite (.var 0) (.seq (.base (.assign 1 (.lit 1))) .ret) .skip false, .base (.assign 1 (.lit 7))]
+    = [.ite (.var 0) (.seq (.base (.assign 1 (.lit 1))) .ret) .skip false, .base (.assign 1 (.lit 7))] := by decide
 
 end C05
